@@ -147,6 +147,7 @@ def check_poll(rep, facts, models):
             if kind != 'REQ' or r.kind != 'POLL':
                 continue
             sleep = None
+            guard = None           # (test, polarity) under which the sleep is taken, for a sleep the walk did not fork on
             conds = []
             for e2 in evs[j + 1:]:
                 kind2, idx2, node2, p2 = e2
@@ -157,12 +158,28 @@ def check_poll(rep, facts, models):
                 if kind2 == 'SLEEP':
                     sleep = (idx2, node2, p2)
                     break
+                if kind2 == 'GSLEEP':
+                    sleep = (idx2, node2, p2[0])
+                    guard = (p2[1], p2[2])
+                    break
             nxt = [e for e in evs[j + 1:] if e[0] == 'REQ']
-            key = (id(r.node), sleep is not None, show(sleep[2])[:200] if sleep else tuple((show(c[3][0])[:80], c[3][1]) for c in conds), bool(nxt))
+            key = (id(r.node), sleep is not None, show(sleep[2])[:200] if sleep else tuple((show(c[3][0])[:80], c[3][1]) for c in conds), bool(nxt),
+                   (show(guard[0])[:120], guard[1]) if guard else None)
             if key in seen:
                 continue
             seen.add(key)
             n += 1
+            if guard is not None and nxt:
+                # the sleep is taken only when `guard` holds: where it does not hold the delay must be zero
+                skipped = skipped_sleep(conds + [('COND', sleep[0], sleep[1], (guard[0], not guard[1]))], r, consts)
+                if skipped is True:
+                    rep.ok('R18.2.sleep', 'no sleep only where bwPollTimeout is zero')
+                elif skipped is None:
+                    rep.undecided('the sleep after GETSTATUS (line {}) is taken under a condition on the poll delay that cannot be evaluated: {}'.format(r.line, show(guard[0])[:80]))
+                else:
+                    rep.fail(F('R18.2.sleep', 'GETSTATUS', r.node,
+                               'the poll delay the device asked for (bwPollTimeout) is waited for only when {}{}: every reply\'s delay must be waited for before the next request'.format(
+                                   '' if guard[1] else 'not ', show(guard[0])[:100])), instance='sleep after poll')
             if sleep is None:
                 if not nxt:
                     continue       # last poll of the run: nothing follows
@@ -178,7 +195,9 @@ def check_poll(rep, facts, models):
             ms = milliseconds_of(sleep[2], consts)
             val = D.reply_value(ms, consts) if ms is not None else None
             if val is None or val[0] != 'int' or val[3] is None:
-                raise AnalysisError('cannot interpret the sleep after GETSTATUS as a function of the reply: {}'.format(show(sleep[2])[:100] if sleep[2] is not None else None))
+                # not understood: no verdict for this rule, and the other rules still run (a violation they establish must not be masked)
+                rep.undecided('cannot interpret the sleep after GETSTATUS as a function of the reply: {}'.format(show(sleep[2])[:100] if sleep[2] is not None else None))
+                continue
             weights, const, reply = val[1], val[2], val[3]
             rep.check(weights == BWPOLLTIMEOUT and const == 0, 'R18.2.delay', 'slept seconds * 1000 == byte1 | byte2 << 8 | byte3 << 16',
                       lambda weights=weights, const=const, r=r: F('R18.2.delay', 'GETSTATUS', r.node,
@@ -285,6 +304,16 @@ def check_typestate(rep, facts, models):
 understood = D.understood
 
 
+def other_length_guard(m, sym, before_idx):
+    """Text of a branch condition before `before_idx` that compares the length of a bound buffer other than the flashed one."""
+    for kind, idx, node, payload in m.evs:
+        if kind == 'COND' and idx < before_idx:
+            g = sym.gt(payload[0])
+            if g is not None and not D.mentions(g, LEN) and any(isinstance(s_, tuple) and s_ and s_[0] == 'len' for k in g.terms for s_ in k):
+                return show(payload[0])[:80]
+    return None
+
+
 def check_layout(rep, facts, fn, models):
     """R18.4 - R18.8: addresses, chunks, padding, guard and the variant table, per path that sends a data download."""
     consts = models[0].consts if models else D.module_consts(facts)
@@ -305,10 +334,13 @@ def check_layout(rep, facts, fn, models):
         if once('undecided', msg):
             rep.undecided(msg)
 
+    erase_loops = set()        # likewise for the erase request
     for m in models:
         for r in m.reqs:
             if r.kind == 'DATA':
                 write_loops.update(id(lp[1]) for lp in m.loops_of.get(r.idx, []))
+            if r.kind == 'ERASE':
+                erase_loops.update(id(lp[1]) for lp in m.loops_of.get(r.idx, []))
 
     for m in models:
         datas = [r for r in m.reqs if r.kind == 'DATA']
@@ -329,7 +361,7 @@ def check_layout(rep, facts, fn, models):
                 if ran:
                     # the write loop did run on this path, and an iteration of it went by without a download
                     rep.fail(F('R18.4.erase-first', 'cli_main', erases[0].site, 'a run can erase pages and end normally without writing them'), instance='erase-only path')
-                elif n_e is None or n_w is None:
+                elif n_e is None or n_w is None or not (understood(n_e, sym) and understood(n_w, sym)):
                     undecided('a path erases pages and ends without writing them, and the trip counts of its erase and write loops cannot be compared')
                 else:
                     rep.fail(F('R18.4.erase-first', 'cli_main', erases[0].site, 'a run can erase pages and end normally without writing them'), instance='erase-only path')
@@ -344,7 +376,17 @@ def check_layout(rep, facts, fn, models):
                 continue
             fw, lo, hi, S, raw = shape
             if raw is None:
-                raise AnalysisError('the buffer sliced by the data download does not lead back to a value read from the file: {}'.format(show(fw)[:80]))
+                raise D.Undecided('the buffer sliced by the data download does not lead back to a value read from the file: {}'.format(show(fw)[:80]))
+            if once('image', repr(strip(raw))):
+                is_file, what = D.flashed_image_is_file(raw)
+                if is_file is None:
+                    undecided('whether the buffer that is padded and written is the content of the firmware file is not known: ' + what)
+                else:
+                    node_r = next((ev[-1] for ev in m.p.events if ev[0] == 'value' and ev[1] == raw), fn)
+                    rep.check(is_file, 'R18.6.image', 'the buffer that is padded and written is the content of the firmware file',
+                              lambda what=what, node_r=node_r: F('R18.6.image', 'cli_main', node_r,
+                                                                 'the image that is padded and written is not the firmware file but {}: flash will not hold the file'.format(what),
+                                                                 line=getattr(node_r, 'lineno', fn.lineno)))
             wl = m.page_loop(d, raw)
             if wl is None:
                 if once('noloop', id(d.node)):
@@ -378,6 +420,16 @@ def check_layout(rep, facts, fn, models):
             er_ok = bool(erases)
             why = 'no page is erased before the write loop starts'
             n_w = m.trip_count(wl.rng, sym_w)
+            if not erases:
+                # the erase loop exists but ran zero times on this path although the write loop ran: their trip counts differ, or are
+                # not comparable
+                skipped = [D.loop_range(payload) for kind, idx, node, payload in m.evs if kind == 'LOOP0' and id(node) in erase_loops and idx < wl.idx]
+                if skipped:
+                    n_e = m.trip_count(skipped[0], sym_w) if skipped[0] is not None else None
+                    if n_e is None or n_w is None or not (understood(n_e, sym_w) and understood(n_w, sym_w)):
+                        raise D.Undecided('the trip counts of the erase loop over {} and the write loop over {} cannot be compared'.format(
+                            show(skipped[0])[:60] if skipped[0] is not None else '?', show(wl.rng)[:60]))
+                    why = ('the erase loop runs {} times but the write loop {} times: every page must be erased and then written exactly once').format(n_e, n_w)
             for r in erases:
                 el = m.page_loop(r, raw)
                 if el is None:
@@ -390,10 +442,12 @@ def check_layout(rep, facts, fn, models):
                     er_ok, why = False, 'the erase loop has not completed when the write loop starts'
                 elif el.rng != wl.rng:
                     n_e = m.trip_count(el.rng, m.sym_for(r, raw))
-                    if n_e is None or n_w is None:
+                    if n_e is None or n_w is None or (not (n_e == n_w) and not (understood(n_e, sym_w) and understood(n_w, sym_w))):
                         raise D.Undecided('the trip counts of the erase loop over {} and the write loop over {} cannot be compared'.format(show(el.rng)[:60], show(wl.rng)[:60]))
                     if not (n_e == n_w):
-                        er_ok, why = False, 'erase loop ranges over {} but write loop over {}'.format(show(el.rng), show(wl.rng))
+                        er_ok, why = False, ('the erase loop runs {} times ({}) but the write loop {} times ({}): every page must be erased and then written exactly once '
+                                             '(a page that is only erased keeps 0xff where the padded image has data or zero padding; a page that is only written was not erased)').format(
+                                                 n_e, show(el.rng)[:60], n_w, show(wl.rng)[:60])
                 if er_ok and r.idx > d.idx:
                     er_ok, why = False, 'a page is erased after it has been written'
             if once('erase-first', er_ok, why if not er_ok else ''):
@@ -409,7 +463,7 @@ def check_layout(rep, facts, fn, models):
             rng = wl.rng
             N = n_w
             if N is None:
-                raise AnalysisError('the number of iterations of {} is not a polynomial the rules can follow'.format(show(rng)[:80]))
+                raise D.Undecided('the number of iterations of {} is not a polynomial the rules can follow'.format(show(rng)[:80]))
             # R18.6 padding: len(FW) == N*S given LEN = Q*S + R from a Euclidean division of the path, zero bytes only
             dms = [dm for dm in sym_w.divmods if dm.q is not None and dm.r is not None and dm.pa == Poly.sym(LEN)]
             if not dms:
@@ -419,7 +473,7 @@ def check_layout(rep, facts, fn, models):
                     rep.fail(F('R18.6.padding', 'cli_main', 'divmod', 'the page count is derived from divmod({}, {}) instead of divmod(len(firmware), page size)'.format(dm.pa, dm.pb), line=fn.lineno),
                              instance='pages, rem = divmod(len(firmware), S)')
                     continue
-                raise AnalysisError('the page count {} is not derived from a division of len(firmware) by the page size (divmod, or // and %)'.format(show(rng)[:80]))
+                raise D.Undecided('the page count {} is not derived from a division of len(firmware) by the page size (divmod, or // and %)'.format(show(rng)[:80]))
             dm = dms[0]
             dm_ok = dm.pb == S
             if not dm_ok and not (understood(dm.pb, sym_w) and understood(S, sym_w)):
@@ -490,6 +544,9 @@ def check_layout(rep, facts, fn, models):
                 a, b, high = D.split_by(g, LEN)
                 if not high and b == Poly.const(1):
                     cap = -a
+            if cap is None and not m.unread_inequalities(sym_w, first) and m.unread_inequalities(sym_w, first, lengths=False) == [] and other_length_guard(m, sym_w, first):
+                undecided('the size guard looks at the length of another buffer ({}) than the one that is padded and written'.format(other_length_guard(m, sym_w, first)))
+                continue
             if cap is None and m.unread_inequalities(sym_w, first):
                 t = m.unread_inequalities(sym_w, first)[0]
                 undecided('a size comparison before the first request is not one the rules can relate to the firmware length (line {}): {}'.format(
@@ -544,6 +601,11 @@ def check_layout(rep, facts, fn, models):
         return
     for letter, n in oracle.DFU['gd32_pages'].items():
         have = table.get(letter)
+        if have is None:
+            # no flashing path was read for this letter: the dispatch on the serial number has a spelling the rules did not follow
+            # (or the part is refused) - nothing is known to be wrong
+            rep.undecided('no flashing path could be read for GD32 serial-number letter {!r} (read: {})'.format(letter, ', '.join(sorted(table))))
+            continue
         rep.check(have is not None and have[0] == n and have[1] == oracle.DFU['gd32_page_size'], 'R18.8.variants',
                   'GD32 serial letter {} -> {} pages of {} bytes'.format(letter, n, oracle.DFU['gd32_page_size']),
                   lambda letter=letter, n=n, have=have: F('R18.8.variants', 'cli_main', have[2] if have and have[2] is not None else 'serial number table',
